@@ -9,7 +9,7 @@ EXPLANATION = (
     "panic/unwrap, unchecked access) in the call-graph closure of the parsing entry points, whether a guard "
     "dominates it on every CFG path (dataflow over SSA-like value expressions, linear facts from dominating "
     "branch edges, callee postcondition summaries proved from the callee bodies, inductive loop invariants). "
-    "Also: loop progress, recursion, and that the reported consumed length is bounded by the input length. "
+    "Also: loop progress, recursion (a depth-counter comparison guards the cycle, and every call cycle of the recursive component contains an edge that passes caller-depth + c, c >= 1), and that the reported consumed length is bounded by the input length. "
     "It does NOT decide accessor totality on parsed values (index sites driven by stored offsets are UNDECIDED) "
     "nor UTF-8 validity of unescaped output.")
 ASSUMPTIONS = ["A1: usize cursor/size arithmetic does not overflow (lengths <= isize::MAX)"]
